@@ -386,22 +386,27 @@ func (r *Replica) ExecPipelined(blocks []PipeBlock) ([]*BlockResult, error) {
 	for range blocks {
 		select {
 		case ev := <-r.blockCh:
-			res := &BlockResult{Height: ev.Block.BlockHeader.Number, Block: ev.Block, Meta: ev.InterchainMeta}
-			if !r.Opts.NoRouter {
-				if r.routerMon == nil {
-					r.routerMon = newRouterMon(r)
-				}
-				r.RouterFindings = append(r.RouterFindings, r.routerMon.Check(ev.Block, ev.InterchainMeta)...)
-				r.RouterBlocks++
-			}
-			out = append(out, res)
+			out = append(out, &BlockResult{Height: ev.Block.BlockHeader.Number, Block: ev.Block, Meta: ev.InterchainMeta})
 		case <-time.After(r.Opts.Watchdog):
 			return out, ErrWatchdog
 		}
 	}
+	// the executor announces every executed block from a goroutine of its own (go blockFeed.Send): when blocks are
+	// executed back to back the announcements can overtake each other. Their order is not part of any result;
+	// every height has to be announced exactly once.
+	sort.SliceStable(out, func(i, j int) bool { return out[i].Height < out[j].Height })
+	if !r.Opts.NoRouter {
+		for _, res := range out { // the router monitor sees the blocks in height order
+			if r.routerMon == nil {
+				r.routerMon = newRouterMon(r)
+			}
+			r.RouterFindings = append(r.RouterFindings, r.routerMon.Check(res.Block, res.Meta)...)
+			r.RouterBlocks++
+		}
+	}
 	for i, res := range out {
 		if res.Height != h0+1+uint64(i) {
-			return out, fmt.Errorf("pipelined run: executed event %d is for height %d, expected %d", i, res.Height, h0+1+uint64(i))
+			return out, fmt.Errorf("pipelined run: the %d executed events do not cover heights %d..%d exactly once (position %d holds height %d)", len(out), h0+1, h0+uint64(len(blocks)), i, res.Height)
 		}
 		for _, tx := range blocks[i].Txs {
 			rc, err := r.L.GetReceipt(tx.GetHash())
